@@ -5,7 +5,7 @@ Tie: differential of the real CspSolver / BitSet<64,-16> against the compiled Le
 line (verdict, returned assignment, getNumNodes(), domains after arc consistency), and the property's own predicate
 evaluated on the implementation's output by an independent Python oracle (exhaustive DFS for small systems, arc
 consistency + minimal assignment -- exact for difference constraints -- for the rest)."""
-import itertools, os, random, subprocess, time
+import hashlib, itertools, os, random, subprocess, time
 from multiprocessing import Pool
 import vlib
 
@@ -492,6 +492,10 @@ def gen_bitset(r, quick):
 # Evaluation
 # ------------------------------------------------------------------------------------------------
 
+def h64(s):
+    return int.from_bytes(hashlib.blake2b(s.encode(), digest_size=8).digest(), "big")
+
+
 def parse_reply(o):
     """-> dict(kind=sat|unsat-arc|unsat-search|err|other, nodes, vals, doms)"""
     t = o.split()
@@ -591,7 +595,7 @@ def worker(job):
                   "csp V 0 1 6 L 0 0 +1", "csp V 0 1 6 L 0 0 1_0", "csp v 0 1 6", "bs", "bs min", "bs min 12", "bs frob 0x1",
                   "bs get 0x1", "bs get 0x1 1 2", "bs pick 0x1 4", "bs pick 0x1 -1", "bs min 0x10000000000000000"]
         systems += [None] * (len(lines) - len(systems))
-    res = {"kind": kind, "n": len(lines), "viol": [], "hist": {}, "nontrivial": 0, "sample": None, "nodes": 0}
+    res = {"kind": kind, "n": len(lines), "viol": [], "hist": {}, "distinct": set(), "sample": None, "nodes": 0}
     budget = 60 + count * max(node_cap, 100) // 20000      # generous: the generators bound every search tree by node_cap
     for which, b in (("implementation", bins[0]), ("model", bins[1])):
         try:
@@ -621,8 +625,11 @@ def worker(job):
             if o != "bad-op": res["viol"].append(("malformed", f"malformed line accepted: `{lines[i]}` -> `{o}`", [lines[i]], o, False))
             bad = []
         else:
-            bad, nt = check_system(c, o, brute_limit)
-            res["nontrivial"] += 1 if nt else 0
+            try:
+                bad, nt = check_system(c, o, brute_limit)
+            except AssertionError as e:      # the Python oracles contradict themselves: a bug of the check, not of the solver
+                res["viol"].append(("oracle", f"internal: {e}", [lines[i]], o, True)); bad, nt = [], False
+            if nt: res["distinct"].add(h64(lines[i]))
             rep = parse_reply(o)
             res["hist"][rep["kind"]] = res["hist"].get(rep["kind"], 0) + 1
             res["nodes"] += rep.get("nodes", 0)
@@ -642,7 +649,8 @@ def run_bitset(ctx, quick):
     lines, meta = gen_bitset(ctx.rng, quick)
     out1, out2, mis = vlib.diff_lines(ctx, "bitset-primitives", lines, "plain")
     ctx.count(len(lines))
-    for l in lines: ctx.distinct(l)
+    for l, m in zip(lines, meta):
+        if m[1] != 0 or m[0] == "setrange": ctx.distinct(h64(l))
     ctx.sample({"op": lines[5], "impl": out1[5] if len(out1) > 5 else None})
     if len(out1) != len(lines): return
     nbad = 0
@@ -694,7 +702,7 @@ def run(ctx):
                        "fixed), parity, min/max tightenings, 0..25 constraints LE/GE/EQ with small / window-crossing / huge offsets, cycles, chains, self-loops, "
                        "interleaved call order; thrash: self-loops / empty domains behind free variables and zig-zag preference chains (the search must backtrack); manycons: 60..192 constraints; kernel: systems shaped like ExtProofKernel::findExtKernel; prefs: the same system under "
                        "6 preference assignments; contract: calls outside the API contract and malformed lines; bitset: BitSet<64,-16> primitives on a boundary grid. "
-                       "distinct = distinct lines; nontrivial = systems with at least one constraint")
+                       "distinct_nontrivial = distinct lines among: systems inside the limits with at least one constraint; bit-set operations on a non-empty set")
     ctx.assumptions += ["int is 32 bits (offset limit cMax = 2^31-48 keeps every int expression of the solver in range; proved for the model: Props.C20.no_int_overflow)",
                         "the work list BitSet<192> is modelled as a list of booleans (tied by the differential incl. 60..192-constraint systems, not by proof)",
                         "the harness pre-checks (assert / array-index / overflow conditions) are read off the C++ by hand; the harness reads private members via #define private public",
@@ -720,7 +728,7 @@ def run(ctx):
     with Pool(procs) as pool:
         for res in pool.imap_unordered(worker, jobs):
             ctx.count(res["n"]); total[res["kind"]] = total.get(res["kind"], 0) + res["n"]
-            ctx.cov["distinct_nontrivial"] += res["nontrivial"]
+            for h in res["distinct"]: ctx.distinct(h)
             nodes += res["nodes"]
             for k, v in res["hist"].items(): hist[k] = hist.get(k, 0) + v
             if res["sample"] and total[res["kind"]] == res["n"]: ctx.sample(res["sample"])
